@@ -37,7 +37,7 @@ def _digests(engine: str, n: int, nproc: int, hashseed: str, kwargs: str) -> dic
 
 
 def main(args) -> int:
-    engines = [args.engine] if args.engine else list(ENGINES)
+    engines = [args.engine] if args.engine and args.engine != "conformance" else ([] if args.engine == "conformance" else list(ENGINES))
     bad = 0
     for eng in engines:
         for kwargs in ENGINES.get(eng, ["{}"]):
@@ -53,6 +53,19 @@ def main(args) -> int:
             for s in diff[:5]:
                 print("  DIFF seed", s, a[s], b.get(s))
             bad += len(diff) + len(harness)
+    if args.engine in (None, "conformance"):
+        from . import cli as _cli  # noqa: F401
+        from . import e3_pool
+
+        d = C.SCRATCH_ROOT / "cwd"
+        d.mkdir(parents=True, exist_ok=True)
+        os.chdir(d)
+        C.import_pyrefact()
+        problems = e3_pool.conformance(12)
+        print(f"selftest conformance: SimPool vs multiprocessing.Pool on 12 trees x n_cores 1,3: {len(problems)} differences")
+        for pr in problems[:5]:
+            print("  ", pr)
+        bad += len(problems)
     if bad:
         print("HARNESS-ERROR determinism self-test failed")
         return C.EXIT_HARNESS
